@@ -395,7 +395,7 @@ pub const DECLS: &[&str] = &[
     "MEASure:CHARacter?", "MEASure:SPECial?", "FAIL", "FAILQ?", "BIG?", "HEX", "MEASure:TRIple?", "SOURce:LEVel:STEP",
     "CONFigure:SOURce:LEVel?", "WIDE",
     "MEASure:NORMalize", "TRIGger:IN_A", "TRIGger:INPut", "VOLTage:RANGe?", "CURRent:RANGe?", "VOLTage:LEVel?", "CURRent:LEVel?", "TEMPerature:VALue?",
-    "TEMPlate:NAME?", "CONFigure:TEN", "MATH:MULTiplyFloat?", "INPut2:DIG_IO:TeST", "ERRor:RAISe", "FREQ:STARt", "FREQuency:STOP",
+    "TEMPlate:NAME?", "CONFigure:TEN", "MATH:MULTiplyFloat?", "INPut2:DIG_IO:TeST", "ERRor:RAISe", "FREQ:STARt", "FREQuency:STOP", "MATH:ECHO?",
     // requested in the attribute: StandardCommands, ErrorCommands (C01: exist exactly when requested)
     "SYSTem:VERSion?", "SYSTem:ERRor:[NEXT]?", "SYSTem:ERRor:COUNt?",
 ];
@@ -404,7 +404,7 @@ pub fn params(id: usize) -> &'static [PT] {
         2 => &[PT::U8], 4 => &[PT::I16], 6 => &[PT::Bool], 7 => &[PT::U32, PT::U32, PT::U32], 8 => &[PT::I64, PT::I64], 9 => &[PT::Str],
         11 => &[PT::Bytes], 13 => &[PT::F64], 14 => &[PT::F32], 18 => &[PT::U8], 22 => &[PT::U16], 23 => &[PT::I8, PT::Str, PT::Bool],
         24 => &[PT::U8], 26 => &[PT::I32, PT::U64, PT::I64],
-        36 => &[PT::U8; 10], 37 => &[PT::F64, PT::F64], 38 => &[PT::U8], 39 => &[PT::I16],
+        36 => &[PT::U8; 10], 37 => &[PT::F64, PT::F64], 38 => &[PT::U8], 39 => &[PT::I16], 42 => &[PT::U64],
         _ => &[],
     }
 }
@@ -415,9 +415,9 @@ pub enum Exp { Exact(i16), AnyOf(Vec<i16>), Any }
 pub enum OEv { Call(String), Err(Exp) }
 
 pub const QCAP: usize = 3;
-pub const ID_VERS: usize = 42;
-pub const ID_ERR_NEXT: usize = 43;
-pub const ID_ERR_COUNT: usize = 44;
+pub const ID_VERS: usize = 43;
+pub const ID_ERR_NEXT: usize = 44;
+pub const ID_ERR_COUNT: usize = 45;
 #[derive(Clone, Debug)]
 pub struct ODev { pub level: u8, pub text: Vec<u8>, pub block: Vec<u8>, pub queue: Vec<Exp> }
 impl ODev { pub fn new() -> ODev { ODev { level: 0, text: vec![], block: vec![], queue: vec![] } } }
@@ -490,6 +490,7 @@ pub fn handler(d: &mut ODev, id: usize, a: &[TArg]) -> (String, Result<Resp, i16
         38 => (format!("INP2:DIG_IO:TST({})", int(&a[0])), Ok(Resp::Unit)),
         39 => (format!("ERR:RAIS({})", int(&a[0])), Err(int(&a[0]) as i16)),
         40 => ("FREQ:STAR".into(), Ok(Resp::Unit)), 41 => ("FREQ:STOP".into(), Ok(Resp::Unit)),
+        42 => (format!("MATH:ECHO?({})", int(&a[0])), Ok(Resp::Int(int(&a[0])))),
         // C01: the standard commands that were requested in the attribute
         ID_VERS => ("".into(), Ok(Resp::Chars(b"1999.0".to_vec()))),
         _ => unreachable!(),
